@@ -824,6 +824,16 @@ def extension_stream(ctx):
                 tail = gen_signal(rng, end1 + GRID * rng.choice([1, 2, 4]), nmax=4)
                 w2[v_] = w1[v_] + [(t_, rng.choice((-9.0, 9.0, 100.0, -100.0, 0.0))) for (t_, _) in tail]
             us = rng.randint(0, 10 ** 6)
+            # prefer a rendering whose interval carries two DIFFERENT explicit units
+            import random as _random
+            import re as _re
+            from .props import c08 as _c08
+            for _k in range(30):
+                _t = _c08.render(_random.Random(us), f, "s", int(SCALE * 10 ** 9), [])
+                _m = _re.search(r"\[[0-9.]+(s|ms|us|ns),[0-9.]+(s|ms|us|ns)\]", _t)
+                if _m and _m.group(1) != _m.group(2):
+                    break
+                us = rng.randint(0, 10 ** 6)
         else:
             us = rng.randint(0, 10 ** 6) if rng.random() < 0.3 and any(x[0] in ("tb1", "tb2") for x in F.subformulas(f)) else None
         if us is not None:
